@@ -229,6 +229,8 @@ def run(chk, ctx):
         chk.ob('C10.L', cons, okk, why, site='pamqp/encode.py::timestamp')
     for cons, okk, why in tsrules.timestamp_decode_rule(ctx):
         chk.ob('C10.P', cons, okk, why, site='pamqp/decode.py::timestamp')
+    for cons, okk, why in tsrules.decimal_context_rule(ctx):
+        chk.ob('C10.P', cons, okk, why, site='pamqp/decode.py::decimal')
     # nothing the caller put into a content header is dropped before it is
     # encoded: the constructor keeps the properties object it is given
     from .. import ctors
